@@ -27,8 +27,13 @@ interact, `Server.shutdown` = `asyncio.gather` over them returns when the last o
 * `deadline` = `helpers.ceil_timeout` (`None`/`<= 0` → no timeout at all; `> 5 s` → rounded
   up to a whole second).
 
-Handlers are oracles: a request is `get`/`postFull` (handler sleeps `dur` ticks and answers)
-or `postPart` (handler first awaits `request.read()`; half of the body arrived with the head).
+Handlers are oracles: a request is `get`/`postFull` (handler sleeps `dur` ticks and answers),
+`postPart` (handler first awaits `request.read()`; half of the body arrived with the head) or
+`postLate` (whole body arrived with the head; the handler sleeps `dur` ticks and only then
+reads it — `StreamReader.read` raises an exception stored by `_current_request._cancel`
+before it looks at buffered data).  `send > 0`: the response body is streamed; writing it
+takes `send` more ticks after the handler returned (`finish_response`: `_current_request`
+is already `None`, `_request_in_progress` still set).
 -/
 namespace Aio.C20.Drain
 open Aio
@@ -43,12 +48,13 @@ def deadline (now T : Nat) : Option Nat :=
   else some (now + T)
 
 inductive ReqKind where
-  | get | postFull | postPart
+  | get | postFull | postPart | postLate
 deriving DecidableEq, Repr
 
 structure Req where
   kind : ReqKind
   dur : Nat
+  send : Nat := 0
 deriving DecidableEq, Repr
 
 /-- the request handler of the connection -/
@@ -56,6 +62,8 @@ inductive Cur where
   | idle                    -- no request in progress (`start()` waits for a message, or is over)
   | waitBody (dur : Nat)    -- handler parked in `request.read()`
   | sleeping (fin : Nat)    -- handler will return at `fin`
+  | sleepRead (fin : Nat)   -- handler will read its (buffered) body at `fin` and return
+  | sending (fin : Nat)     -- handler returned; the response body is complete at `fin`
 deriving DecidableEq, Repr
 
 /-- the `RequestHandler.shutdown` coroutine of the connection -/
@@ -71,6 +79,7 @@ inductive Obs where
   | hr (t : Nat)      -- a handler returns its response
   | resp (t : Nat)    -- a complete response reaches the transport
   | hx (t : Nat)      -- a handler is cancelled
+  | sx (t : Nat)      -- the writing of a response body is cancelled
   | close (t : Nat)   -- `transport.close()`
   | done (t : Nat)    -- `RequestHandler.shutdown` returns
 deriving DecidableEq, Repr
@@ -85,6 +94,8 @@ structure Conn where
   sd : Sd := .none
   T : Nat := 0                   -- timeout given to `shutdown`
   obs : List Obs := []
+  sendDur : Nat := 0             -- time the response of the request in progress will take to write
+  payloadExc : Bool := false     -- `_current_request._cancel(…)` stored an exception in the payload
 deriving Repr
 
 inductive Label where
@@ -100,8 +111,9 @@ inductive Internal where
 deriving DecidableEq, Repr
 
 def startReq (c : Conn) (t : Nat) (r : Req) : Conn :=
-  { c with obs := c.obs ++ [.hs t],
-           cur := if r.kind = .postPart then .waitBody r.dur else .sleeping (t + r.dur) }
+  { c with obs := c.obs ++ [.hs t], sendDur := r.send, payloadExc := false,
+           cur := if r.kind = .postPart then .waitBody r.dur
+                  else if r.kind = .postLate then .sleepRead (t + r.dur) else .sleeping (t + r.dur) }
 
 /-- `transport.close()` (idempotent) -/
 def closeTransport (c : Conn) (t : Nat) : Conn :=
@@ -122,14 +134,30 @@ def afterHandler (c : Conn) (t : Nat) : Conn :=
     let c := { c with cur := .idle, taskAlive := false }
     if c.forceClose then c else closeTransport c t
 
+/-- the request in progress is over (response written): `_handle_request`'s `finally`
+resolves `_handler_waiter`, `start()` goes on -/
+def requestDone (c : Conn) (t : Nat) : Conn :=
+  let c := afterHandler c t
+  match c.sd with
+  | .wait1 _ => finishShutdown c t
+  | .wait2 _ => finishShutdown c t
+  | _ => c
+
 def fire (c : Conn) (t : Nat) : Internal → Conn
   | .handlerDone =>
-    let c := { c with obs := c.obs ++ (if c.transportOpen then [.hr t, .resp t] else [.hr t]) }
-    let c := afterHandler c t
-    match c.sd with
-    | .wait1 _ => finishShutdown c t
-    | .wait2 _ => finishShutdown c t
-    | _ => c
+    match c.cur with
+    | .sending _ =>
+      requestDone { c with obs := c.obs ++ (if c.transportOpen then [.resp t] else []) } t
+    | .sleepRead _ =>
+      if c.payloadExc then
+        -- `request.read()` raises the stored CancelledError; start() force-closes and ends
+        requestDone { c with forceClose := true, obs := c.obs ++ [.hx t] } t
+      else
+        requestDone { c with obs := c.obs ++ (if c.transportOpen then [.hr t, .resp t] else [.hr t]) } t
+    | _ =>
+      if c.sendDur = 0 then
+        requestDone { c with obs := c.obs ++ (if c.transportOpen then [.hr t, .resp t] else [.hr t]) } t
+      else { c with obs := c.obs ++ [.hr t], cur := .sending (t + c.sendDur), sendDur := 0 }
   | .timeout =>
     match c.sd with
     | .wait1 _ =>
@@ -137,9 +165,10 @@ def fire (c : Conn) (t : Nat) : Internal → Conn
       | .waitBody _ =>
         -- the payload raises CancelledError in the handler; start() force-closes and ends
         finishShutdown { c with cur := .idle, obs := c.obs ++ [.hx t] } t
-      | _ => { c with sd := .wait2 (deadline t c.T) }
+      | _ => { c with sd := .wait2 (deadline t c.T), payloadExc := true }
     | .wait2 _ =>
-      let c := if c.cur = .idle then c else { c with cur := .idle, obs := c.obs ++ [.hx t] }
+      let c := if c.cur = .idle then c
+        else { c with cur := .idle, obs := c.obs ++ [match c.cur with | .sending _ => Obs.sx t | _ => Obs.hx t] }
       finishShutdown c t
     | _ => c
 
@@ -172,6 +201,8 @@ def step (c : Conn) (t : Nat) : Label → Conn
 def nextInternal (c : Conn) : Option (Nat × Internal) :=
   let h : Option Nat := match c.cur with
     | .sleeping fin => some fin
+    | .sleepRead fin => some fin
+    | .sending fin => some fin
     | _ => none
   let d : Option Nat := match c.sd with
     | .wait1 d => d
@@ -201,7 +232,7 @@ def settle : Nat → Conn → Conn
 
 /-- enough fuel: every queued request can start and finish, plus the shutdown steps -/
 def fuelFor (c : Conn) (evs : List (Nat × Label)) : Nat :=
-  2 * (c.queue.length + (evs.map (fun e => match e.2 with | .recv rs => rs.length | _ => 0)).sum) + 8
+  3 * (c.queue.length + (evs.map (fun e => match e.2 with | .recv rs => rs.length | _ => 0)).sum) + 8
 
 def runFrom (F : Nat) (c : Conn) (evs : List (Nat × Label)) : Conn :=
   evs.foldl (fun c e => step (advance F e.1 c) e.1 e.2) c
